@@ -864,24 +864,21 @@ impl<'a> Compiler<'a> {
                 self.push_str(fname.as_str());
             }
             CardBody::Array(expressions) => {
-                // create a table, then for each sub-card: insert the subcard and append it to the
-                // result
-                // finally: ensure the result is on the stack
+                // create a table, then append the value of each sub-card to it; the table stays
+                // on the stack as the value of this card.
+                // The table is not kept in a local: an Array card can be an operand, a local
+                // slot declared while temporaries of the enclosing expression are on the
+                // stack would alias one of them.
                 self.push_instruction(Instruction::InitTable);
-                let table_var = self.add_local_unchecked("")?;
-                self.write_local_var(table_var);
                 for (i, card) in expressions.iter().enumerate() {
-                    // push nil, so if the card results in no output,
-                    // we append nil to the table
-                    self.push_instruction(Instruction::ScalarNil);
+                    // [table] -> [table, table, value] -> [table, value, table] -> [table]
+                    self.push_instruction(Instruction::CopyLast);
                     self.current_index.push_subindex(i as u32);
                     self.process_card(card)?;
                     self.current_index.pop_subindex();
-                    self.read_local_var(table_var);
+                    self.push_instruction(Instruction::SwapLast);
                     self.push_instruction(Instruction::AppendTable);
                 }
-                // push the table to the stack
-                self.read_local_var(table_var);
             }
             CardBody::Len(expr) => {
                 self.compile_subexpr(slice::from_ref(expr.card.as_ref()))?;
